@@ -197,7 +197,7 @@ class DeriveHooks(NextModel):
             s2.add_lin(ge(r, 0))
             _bump(s2, GHOST, r)
             return [(s2, Num(r))]
-        if hasattr(callee, "qual") and getattr(callee, "name", "") == "Attribution" and fr.func is D:
+        if hasattr(callee, "qual") and getattr(callee, "name", "") == "Attribution":
             self.attr_calls.append((node, args, kwargs, st))
             n = next(eng.counter)
             a = list(args) + [None, None]
@@ -517,8 +517,10 @@ class WriterHooks(Hooks):
         self.maps = []
 
     def opaque_call(self, eng, fr, node, callee, args, kwargs, st):
-        # token printers stay symbolic: token = printer(object)
-        return fr.func is self.W and getattr(callee, "cls", None) is None and not _total_length_function(self.ctx, callee)
+        # token printers stay symbolic: token = printer(object); helpers that receive the output list are inlined
+        if any(vkey(a) == self.listkey for a in list(args) + list(kwargs.values())):
+            return False
+        return getattr(callee, "cls", None) is None and not _total_length_function(self.ctx, callee)
 
     def on_call(self, eng, fr, node, callee, args, kwargs, st):
         if isinstance(callee, tuple) and callee[0] == "method" and vkey(callee[2]) == self.listkey:
@@ -541,7 +543,7 @@ class WriterHooks(Hooks):
                 and getattr(callee, "cls", None) is None and callee is not self.W:
             if _total_length_function(self.ctx, callee):
                 return [(st, Num(st.env[GLEN].lin))]
-            raise AnalysisError("the output list is handed to %s, which is not a recognised total-length function" % callee.qual)
+            return None        # a helper working on the output list: inlined (its appends are counted like any other)
         if isinstance(callee, tuple) and callee[0] == "ext" and callee[1] == "builtins.len" and args and vkey(args[0]) == self.listkey:
             return [(st, Unk(eng.fresh("ntokens")))]
         if hasattr(callee, "qual") and getattr(callee, "name", "") == "AttributionMap":
@@ -582,10 +584,16 @@ def check_writer(ctx, rep, R1, R2):
                witness="; ".join(probs) or None, nontrivial=True, key="map/%s" % ("ok" if not probs else probs[0][:50]))
     # ---- TO2: offsets across fragments
     seps = []
-    for n in own_nodes(top.node):
-        if isinstance(n, ast.Call) and isinstance(n.func, ast.Attribute) and n.func.attr == "join" and isinstance(n.func.value, ast.Constant) \
-                and isinstance(n.func.value.value, str):
-            seps.append((n, n.func.value.value))
+    scopes = [top]
+    rets = [r.value for r in own_nodes(top.node) if isinstance(r, ast.Return) and r.value is not None]
+    for site in ctx.cg.sites(top):
+        if any(site.node is x for rv in rets for x in ast.walk(rv)):
+            scopes.extend(g for g in site.callees if g not in scopes and g.cls is None)   # return _join(fragments, ...)
+    for sc in scopes:
+        for n in own_nodes(sc.node):
+            if isinstance(n, ast.Call) and isinstance(n.func, ast.Attribute) and n.func.attr == "join" and isinstance(n.func.value, ast.Constant) \
+                    and isinstance(n.func.value.value, str):
+                seps.append((n, n.func.value.value))
     frag_join = [(n, sp) for n, sp in seps if any(x is n for x in ast.walk(wr["loop"])) and n.args and isinstance(n.args[0], ast.Name)
                  and n.args[0].id == wr["list_local"]]
     out_join = [(n, sp) for n, sp in seps if not any(x is n for x in ast.walk(wr["loop"]))]
@@ -827,9 +835,19 @@ def check_encoder_tokens(ctx, rep, RULE):
     tokfn = ctx.fn("selfies.encoder._atom_to_selfies")
     maps, appends = [], []
 
+    def builds_map(g, depth=0):
+        for n in own_nodes(g.node):
+            if isinstance(n, ast.Call) and unparse(n.func).split(".")[-1] == "AttributionMap":
+                return True
+        if depth < 2:
+            return any(builds_map(h2, depth + 1) for s_ in ctx.cg.sites(g) for h2 in s_.callees if h2 is not g and h2.cls is None)
+        return False
+
     class H(Hooks):
         def opaque_call(self, eng, fr, node, callee, args, kwargs, st):
-            return getattr(callee, "cls", None) is None and hasattr(callee, "qual")
+            if getattr(callee, "cls", None) is None and hasattr(callee, "qual"):
+                return callee is F or not builds_map(callee)
+            return False
 
         def on_call(self, eng, fr, node, callee, args, kwargs, st):
             if callee is F and fr.func is F:
